@@ -350,3 +350,31 @@ Definition check (t : term) : term :=
       end
   | _ => v_parse
   end.
+
+(* ---------- schedules (for the statements quantified over every flush / reload / query order) ---------- *)
+Inductive oop : Type :=
+| ONew (b : oblock)                      (* newBlock *)
+| OCommit (offset : nat) (lowest : N)    (* prepareCommit + commitRound + postCommit *)
+| OReload                                (* loadFromDisk + replay *)
+| OLookup (rnd k : N).                   (* lookupOnlineAccountData (fills the cache) *)
+
+Definition ostep (p : oparams) (s : ostate) (o : oop) : option ostate :=
+  match o with
+  | ONew b => Some (new_block s (ob_mods b) (ob_supply b) (ob_level b))
+  | OCommit off lowest => commit p s off lowest
+  | OReload => reload p s
+  | OLookup rnd k => Some (fst (lookup_online p s rnd k))
+  end.
+
+Fixpoint orun (p : oparams) (s : ostate) (ops : list oop) : option ostate :=
+  match ops with
+  | [] => Some s
+  | o :: r => match ostep p s o with Some s' => orun p s' r | None => None end
+  end.
+
+Fixpoint oblocks_of (ops : list oop) : list oblock :=
+  match ops with
+  | [] => []
+  | ONew b :: r => b :: oblocks_of r
+  | _ :: r => oblocks_of r
+  end.
